@@ -26,7 +26,7 @@ CONFIG = {
     'quick': {'shards': 16, 'cases': 4, 'timeout': 900, 'floor': 20},
     'thorough': {'shards': 32, 'cases': 250, 'timeout': 5400, 'floor': 2500},
 }
-REQUIRED = ['contract_weighted_var', 'contract_rvs', 'contract_logpdf', 'contract_weighted_sample_quantile', 'populations_checked', 'weights_compared', 'cov_compared', 'threshold_user', 'threshold_quantile', 'continued_runs',
+REQUIRED = ['contract_weighted_var', 'contract_rvs', 'contract_logpdf', 'contract_weighted_sample_quantile', 'populations_checked', 'weights_compared', 'cov_compared', 'threshold_user', 'threshold_quantile', 'continued_runs', 'continued_runs_other_form',
             'prior_hier', 'prior_bounded', 'prior_unbounded', 'n_sim_checked']
 
 
@@ -58,8 +58,13 @@ def gen_cases(ctx):
         case = {'spec': spec, 'bar': bool(rng.random() < 0.4), 'bs': int(rng.choice([1, 5, 20, 100])), 'n': int(rng.choice([5, 20, 60, 200])), 'seed': seed, 'kw': kw}
         if case['bs'] == 1 and case['n'] > 60:
             case['n'] = 60
-        if rng.random() < 0.3:
-            case['cont'] = {'thresholds': [q(0.07)]} if 'thresholds' in kw else {'quantiles': [0.5]}
+        if rng.random() < 0.4:
+            # continued sampling on the same sampler, in the same or in the other objective form
+            same = rng.random() < 0.5
+            if ('thresholds' in kw) == same:
+                case['cont'] = {'thresholds': [q(0.07)]}
+            else:
+                case['cont'] = {'quantiles': [0.5]}
         made += 1
         yield case
 
@@ -110,14 +115,22 @@ def run_case(ctx, case):
     from vmon.props import c13
     with contracts.attached(ctx, *c13.specs(ctx)):
         res = smc.sample(N, bar=bool(case.get('bar')), **kw)
-        kwall = dict(kw)
+        first_thr = float(res.populations[-1].threshold)
+        per_round = [('t', v) for v in kw.get('thresholds', [])] + [('q', v) for v in kw.get('quantiles', [])]
         if 'cont' in case:
-            res = smc.sample(N, bar=bool(case.get('bar')), **case['cont'])
-            kwall = {k: list(kw[k]) + list(case['cont'][k]) for k in kw}
+            cont = dict(case['cont'])
+            if 'thresholds' in cont and 'quantiles' in kw:
+                # a user threshold for the continuation must be reachable from the last population: a fraction of its threshold
+                cont = {'thresholds': [0.8 * first_thr]}
+                ctx.event('continued_runs_other_form')
+            elif 'quantiles' in cont and 'thresholds' in kw:
+                ctx.event('continued_runs_other_form')
+            res = smc.sample(N, bar=bool(case.get('bar')), **cont)
+            per_round += [('t', v) for v in cont.get('thresholds', [])] + [('q', v) for v in cont.get('quantiles', [])]
             ctx.event('continued_runs')
-    mode = 'thresholds' if 'thresholds' in kwall else 'quantiles'
     pops = res.populations
-    nr = len(kwall[mode])
+    nr = len(per_round)
+    mode = 'mixed'
     if len(pops) != nr:
         raise Violation('n-populations', '%d populations returned for %d rounds' % (len(pops), nr))
     ctx.event('n_sim_checked')
@@ -131,16 +144,17 @@ def run_case(ctx, case):
         ctx.event('populations_checked')
         if len(dsc) != N or len(th) != N or len(p.weights) != N:
             raise Violation('population-size', 'round %d: %d particles, n_samples=%d' % (r, len(dsc), N))
-        if mode == 'thresholds':
+        form, val = per_round[r]
+        if form == 't':
             ctx.event('threshold_user')
-            if not np.all(dsc <= kwall['thresholds'][r]):
-                raise Violation('above-threshold', 'round %d: max discrepancy %r above the user threshold %r' % (r, dsc.max(), kwall['thresholds'][r]))
+            if not np.all(dsc <= val):
+                raise Violation('above-threshold', 'round %d: max discrepancy %r above the user threshold %r' % (r, dsc.max(), val))
         elif r > 0:
             ctx.event('threshold_quantile')
-            adm = wq_admissible(prev['d'], kwall['quantiles'][r], prev['w'])
+            adm = wq_admissible(prev['d'], val, prev['w'])
             if not adm or not np.all(dsc <= max(adm)):
                 raise Violation('above-quantile-threshold', 'round %d: max discrepancy %r above the weighted %.2f-quantile of the previous population %s' % (
-                    r, dsc.max(), kwall['quantiles'][r], sorted(adm)))
+                    r, dsc.max(), val, sorted(adm)))
         lp = models.prior_logpdf(spec, th)
         if not np.all(np.isfinite(lp)):
             raise Violation('zero-prior-particle', 'round %d: particle with zero prior density' % r, {'theta': th[~np.isfinite(lp)][:3]})
@@ -168,4 +182,4 @@ def run_case(ctx, case):
             raise Violation('cov', 'round %d: population covariance is not twice the weighted sample variance' % r, {'got': p.cov, 'expected': cov})
         prev = {'th': th, 'w': w, 'd': dsc, 'cov': np.asarray(p.cov)}
     ctx.nontrivial(len(pops) >= 2)
-    ctx.distinct('config', '%s|r%d|bs%d|n%d' % (mode, nr, bs, N))
+    ctx.distinct('config', '%s|r%d|bs%d|n%d' % (''.join(f for f, _v in per_round), nr, bs, N))
